@@ -127,6 +127,24 @@ def chk_bc(c):
         idx, val = assemble.compute_dirichlet_bc(kvs, geo, 'left', vec)
         base = assemble.slice_indices(1, 0, N, ravel=True)
         assert sorted(idx.tolist()) == sorted(base.tolist() + (base + NN).tolist()), 'blocked numbering of vector data'
+    # any number of components (independent of the space dimension): component j of the data lands on the dofs base + j*NN with the
+    # values of the scalar computation for that component
+    if dim >= 2:
+        comps = [lambda *x: 1.0 + x[0], lambda *x: x[-1] - 2.0 * x[0], lambda *x: 0.5 + 0 * x[0], lambda *x: x[0] + x[-1]]
+        for ncomp in (1, 2, 3, 4):
+            for spec in (names[0], names[-1]):
+                vecf = lambda *x, ncomp=ncomp: np.stack([g(*x) + 0 * x[0] for g in comps[:ncomp]], axis=-1)
+                idx, val = assemble.compute_dirichlet_bc(kvs, geo, spec, vecf)
+                ax, side = bspline._parse_bdspec(spec, dim)
+                base = assemble.slice_indices(ax, 0 if side == 0 else -1, N, ravel=True)
+                want = sorted(int(b) + j * NN for j in range(ncomp) for b in base)
+                assert sorted(idx.tolist()) == want, '%d-component data on face %r: dofs %d returned, %d expected (blocked numbering, every component)' % (
+                    ncomp, spec, len(idx), len(want))
+                got = dict(zip(idx.tolist(), val.tolist()))
+                for j in range(ncomp):
+                    sidx, sval = assemble.compute_dirichlet_bc(kvs, geo, spec, comps[j] if j != 2 else (lambda *x: 0.5 + 0 * x[0]))
+                    for i, v in zip(sidx.tolist(), sval.tolist()):
+                        assert abs(got[i + j * NN] - v) <= 1e-12, 'component %d of %d-component data differs from the scalar computation' % (j, ncomp)
     # several conditions: every dof once; 'all' shorthand
     bcs = [(nm, lin) for nm in names]
     idx, val = assemble.compute_dirichlet_bcs(kvs, geo, bcs)
